@@ -739,7 +739,8 @@ func (ex *Exec) checkInvariants(f *frame, st *State, li *loopInfo, at *ssa.Basic
 	for _, inv := range ls.Invariants {
 		t, err := ex.V.transExpr(ex, f, inv.Expr, st, f.entry, nil)
 		if err != nil {
-			ex.V.fatal("%s loop %d invariant %q: %v", funcName(f.fn), li.ordinal, inv.Text, err)
+			ex.oblige(f, st, "invariant", fmt.Sprintf("loop%d:%s:does-not-attach", li.ordinal, inv.Label), inv.Label, li.header.Instrs[0].Pos(), tFalse, "the contract no longer attaches to the code ("+err.Error()+"): "+inv.Text)
+			continue
 		}
 		ex.oblige(f, st, "invariant", fmt.Sprintf("loop%d:%s:%s", li.ordinal, inv.Label, phase), inv.Label, li.header.Instrs[0].Pos(), t, "loop invariant "+phase+": "+inv.Text)
 	}
@@ -756,7 +757,7 @@ func (ex *Exec) assumeInvariants(f *frame, st *State, li *loopInfo) {
 	for _, inv := range ls.Invariants {
 		t, err := ex.V.transExpr(ex, f, inv.Expr, st, f.entry, nil)
 		if err != nil {
-			ex.V.fatal("%s loop %d invariant %q: %v", funcName(f.fn), li.ordinal, inv.Text, err)
+			continue // reported by checkInvariants
 		}
 		ex.assume(st, t)
 	}
